@@ -12,6 +12,9 @@ def factory(prop):
     if prop in ("C01", "C02", "C03", "C04", "C05", "C07"):
         from engines.sc import SCCheck
         return SCCheck(prop)
+    if prop == "C11":
+        from engines.conds import CondCheck
+        return CondCheck()
     raise SystemExit(f"unknown property {prop}")
 
 
